@@ -209,6 +209,101 @@ def run_task(task):
     return {"label": label, "n": n, "links": links, "violations": list(viols.values())}
 
 
+def run_cwd_cases(_):
+    """E4 on the real binary in real directories (a scratch repository made with `git init`): the ways delta is started
+    other than as git's pager in the repository root. Each case: (label, working directory, GIT_PREFIX, what the parent
+    process looks like, path as printed in the input, the file meant)."""
+    import shutil
+    import subprocess
+    from driver import base_env
+    top = os.path.join(build.BUILD, "tmp", "c19_cwd_%d" % os.getpid())
+    shutil.rmtree(top, ignore_errors=True)
+    repo = os.path.join(top, "repo")
+    os.makedirs(os.path.join(repo, "src", "sub"))
+    subprocess.run(["git", "init", "-q", repo], env=dict(base_env(), GIT_CONFIG_GLOBAL="/dev/null"), stdout=subprocess.DEVNULL,
+                   stderr=subprocess.DEVNULL)
+    gone = os.path.join(top, "gone")
+    cases = [
+        ("pager-in-root", repo, "", "git diff", "src/sub/a.txt", os.path.join(repo, "src/sub/a.txt")),
+        ("pager-in-subdirectory", repo, "src/", "git diff", "src/sub/a.txt", os.path.join(repo, "src/sub/a.txt")),
+        ("pager,git --relative", repo, "src/", "git diff --relative", "sub/a.txt", os.path.join(repo, "src/sub/a.txt")),
+        ("pipe-in-root", repo, None, "git diff", "src/sub/a.txt", os.path.join(repo, "src/sub/a.txt")),
+        ("pipe-in-subdirectory", os.path.join(repo, "src"), None, "git diff", "src/sub/a.txt", os.path.join(repo, "src/sub/a.txt")),
+        ("pager,git --relative=src", repo, "", "git diff --relative=src", "sub/a.txt", os.path.join(repo, "src/sub/a.txt")),
+    ]
+    viols = []
+    n = 0
+    for label, cwd, prefix, parent, shown, meant in cases:
+        env = base_env()
+        env["DELTA_VERIF_PARENT_ARGS"] = parent
+        if prefix is not None:
+            env["GIT_PREFIX"] = prefix
+        data = ("diff --git a/%s b/%s\n--- a/%s\n+++ b/%s\n@@ -1 +1 @@\n-a\n+b\n" % ((shown,) * 4)).encode()
+        outs = []
+        for hl in (False, True):
+            a = ["--no-gitconfig", "--paging=never", "--detect-dark-light=never", "--line-numbers",
+                 "--hyperlinks-file-link-format=file://{path}"] + (["--hyperlinks"] if hl else [])
+            p = subprocess.run([build.BIN] + a, input=data, env=env, cwd=cwd, stdout=subprocess.PIPE, stderr=subprocess.PIPE, timeout=30)
+            outs.append(p.stdout)
+            n += 1
+        targets = set(re.findall(rb"\x1b\]8;;file://([^\x1b\x07]*)", outs[1]))
+        err = None
+        if re.sub(rb"\x1b\]8;;[^\x1b\x07]*(?:\x1b\\|\x07)", b"", outs[1]) != outs[0]:
+            err = ("not-transparent", "output with the links removed differs from the output without --hyperlinks")
+        elif not targets:
+            err = ("no-links", "no file link in the output")
+        elif any(norm(t.decode().split("#")[0]) != meant for t in targets):
+            err = ("wrong-target", "links point at %s, the file is %s" % (sorted(t.decode() for t in targets), meant))
+        if err:
+            v = Violation("cwd:%s:%s" % (err[0], label), "[%s: cwd %s, GIT_PREFIX %r, parent `%s`, path in the input %s] %s"
+                          % (label, cwd.replace(top, "…"), prefix, parent, shown, err[1]), data.split(b"\n")[:-1])
+            v.args = a
+            v.env = {"GIT_PREFIX": prefix, "cwd": cwd.replace(top, "<scratch>")}
+            v.caller = parent.split()
+            viols.append(v)
+    # a name git prints quoted and escaped; diffstat lines that are not plain paths, under --relative-paths
+    env = base_env()
+    env["DELTA_VERIF_PARENT_ARGS"] = "git show --stat -p"
+    env["GIT_PREFIX"] = ""
+    quoted = ('diff --git "a/src/\\303\\244 \\"q\\".txt" "b/src/\\303\\244 \\"q\\".txt"\n--- "a/src/\\303\\244 \\"q\\".txt"\n'
+              '+++ "b/src/\\303\\244 \\"q\\".txt"\n@@ -1 +1 @@\n-a\n+b\n').encode()
+    stat = (b"commit " + H40.encode() + b"\n\n src/{old.rs => new.rs} | 4 ++--\n old.txt => new.txt      | 2 +-\n"
+            b" .../long/dir/name/file.txt | 3 ++-\n src/plain.rs | 1 +\n 4 files changed\n")
+    for label, data, extra, meant_set in (
+            ("quoted-name", quoted, [], {os.path.join(repo, 'src/\u00e4 "q".txt')}),
+            ("diffstat-not-a-path", stat, ["--relative-paths"], {os.path.join(repo, "src/plain.rs")})):
+        a = ["--no-gitconfig", "--paging=never", "--detect-dark-light=never", "--line-numbers", "--hyperlinks",
+             "--hyperlinks-file-link-format=file://{path}", "--hyperlinks-commit-link-format=c://{commit}"] + extra
+        p = subprocess.run([build.BIN] + a, input=data, env=env, cwd=repo, stdout=subprocess.PIPE, stderr=subprocess.PIPE, timeout=30)
+        n += 1
+        targets = set(norm(t.decode("utf-8", "replace").split("#")[0]) for t in re.findall(rb"\x1b\]8;;file://([^\x1b\x07]*)", p.stdout))
+        if not targets or not targets <= meant_set:
+            v = Violation("cwd:wrong-target:" + label, "[%s] links point at %s, the file(s) meant: %s"
+                          % (label, sorted(targets), sorted(meant_set)), data.split(b"\n")[:-1])
+            v.args = a
+            v.env = {"GIT_PREFIX": ""}
+            viols.append(v)
+    # no working directory at all (the shell sits in a directory that has been removed)
+    os.makedirs(gone)
+    script = "cd %s && rmdir %s && exec %s --no-gitconfig --paging=never --detect-dark-light=never --line-numbers %%s" % (gone, gone, build.BIN)
+    data = b"diff --git a/src/a.txt b/src/a.txt\n--- a/src/a.txt\n+++ b/src/a.txt\n@@ -1 +1 @@\n-one\n+two\n"
+    outs = []
+    for hl in ("", "--hyperlinks"):
+        os.makedirs(gone, exist_ok=True)
+        env = base_env()
+        env["DELTA_VERIF_PARENT_ARGS"] = "git diff"
+        p = subprocess.run(["sh", "-c", script % hl], input=data, env=env, stdout=subprocess.PIPE, stderr=subprocess.PIPE, timeout=30)
+        outs.append(p.stdout)
+        n += 1
+    if re.sub(rb"\x1b\]8;;[^\x1b\x07]*(?:\x1b\\|\x07)", b"", outs[1]) != outs[0]:
+        v = Violation("cwd:not-transparent:no-working-directory", "delta started in a directory that no longer exists: the output "
+                      "of --hyperlinks with the links removed differs from the output without: %r vs %r" % (outs[1][-120:], outs[0][-120:]),
+                      data.split(b"\n")[:-1])
+        viols.append(v)
+    shutil.rmtree(top, ignore_errors=True)
+    return {"n": n, "links": 0, "violations": viols, "label": "cwd-cases"}
+
+
 ASSUMPTIONS = [
     "delta's working directory is the repository root %s (as when git runs it); GIT_PREFIX in {unset, sub/dir/}" % ROOT,
     "expected absolute path = root [+ GIT_PREFIX for grep/blame callers, whose paths are relative to the user's "
@@ -270,6 +365,7 @@ def main(tier):
                 tasks.append(("blame,pty,tpl=%s,prefix=%s,format=%s" % (tpl, prefix, bf), bo, env,
                               ["git", "blame", "f.rs"], (24, 100), [(b[0], b[1], [])], tpl, "blame", base))
     res = explore.pmap(run_task, [t + (deadline,) for t in tasks])
+    res += explore.pmap(run_cwd_cases, [None])
     n = sum(r["n"] for r in res)
     links = sum(r["links"] for r in res)
     viols = []
